@@ -1,4 +1,299 @@
+import MlodaVerif.Lemmas.ChainResolve
 import MlodaVerif.Model.Config
+/-! # C16 - name-chained, option-configured and JSON-configured features are equivalent
+
+Model: `Model/Chain.lean` (grammar, matching, inputs, parameters, resolution), `Model/Config.lean` (JSON loader);
+vocabularies, separators, suffix patterns and PROPERTY_MAPPING flags in `Gen/ChainConsts.lean` are regenerated from
+`/repo` on every run, so every `decide` over "the whole table" is re-checked against the code as it is now.
+
+All theorems quantify over *every* well-formed chain (any depth, any source names, any positive window size); nothing is
+bounded.  Where mloda violates the property the full statement is kept in a comment, a `_partial` theorem is proved under
+the decidable hypothesis that excludes the defect, and a `_witness` theorem proves the failure on a concrete input. -/
 open Chain Config Gen.Chain
 
-theorem C16.chainSep_is_double_underscore : chainSep = ['_', '_'] := by decide
+/-! ## rendering facts -/
+
+theorem Chain.render_step (c : Chain) (op : Op) : (Chain.step c op).render = c.render ++ chainSep ++ op.suffix := rfl
+
+theorem Chain.wfU_render (c : Chain) (h : c.wfU = true) : c.render ≠ [] ∧ ∀ ch ∈ c.render, ch ≠ '&' := by
+  induction c with
+  | src ns =>
+    match ns, h with
+    | [n], h =>
+      obtain ⟨h1, _, h3, _⟩ := srcOk_elim (by simpa [Chain.wfU] using h)
+      exact ⟨by simpa [Chain.render, joinWith] using h1, by simpa [Chain.render, joinWith] using h3⟩
+    | [], h => simp [Chain.wfU] at h
+    | _ :: _ :: _, h => simp [Chain.wfU] at h
+  | step c op ih =>
+    simp only [Chain.wfU, Bool.and_eq_true] at h
+    obtain ⟨⟨hc, hok⟩, _⟩ := h
+    obtain ⟨g, _, _, hf⟩ := sufFacts_of_ok op hok
+    obtain ⟨hne, hamp⟩ := ih hc
+    refine ⟨by simp [Chain.render_step, hne], ?_⟩
+    intro ch hch
+    simp only [Chain.render_step, List.mem_append] at hch
+    rcases hch with (hch | hch) | hch
+    · exact hamp ch hch
+    · have : chainSep = ['_', '_'] := by decide
+      rw [this] at hch
+      intro he; subst he; simp at hch
+    · exact hf.noAmp ch hch
+
+/-! ## left to right: the last suffix is the operation applied last -/
+
+/-- **left_to_right.** For every chain `c` (any depth) and vocabulary operation `op`, the name of `c ▷ op` splits at its
+*last* `__` into the name of `c` and the suffix of `op`; the group of `op` parses it to `(operation, source = name of c)`,
+claims it, and is the only built-in (modelled) group that does. -/
+theorem C16.left_to_right (c : Chain) (op : Op) (hc : c.wfU = true) (hop : op.ok = true) :
+    rsplitOnce chainSep (Chain.step c op).render = some (c.render, op.suffix) ∧
+    (∃ g cfg, groupAt op.gid = some g ∧
+      parseFeatureName chainSep [g.toks] (Chain.step c op).render = .ok (some (some cfg, c.render))) ∧
+    matchingGroups (Chain.step c op).render emptyOpts = .ok [op.gid] := by
+  obtain ⟨g, hg, hmod, hf⟩ := sufFacts_of_ok op hop
+  obtain ⟨caps, hm, hcfg⟩ := hf.matched
+  obtain ⟨hne, _⟩ := Chain.wfU_render c hc
+  obtain ⟨cfg, hcfg'⟩ := Option.isSome_iff_exists.mp hcfg
+  refine ⟨?_, ⟨g, cfg, hg, ?_⟩, ?_⟩
+  · rw [Chain.render_step, chainSep_eq]; exact rsplitOnce_append _ _ hf.sufok
+  · rw [Chain.render_step, parseFeatureName_append g.toks _ _ caps hne hf.sufok hm, hcfg']
+  · rw [Chain.render_step]; exact matchingGroups_rendered op.gid g hg hmod _ _ caps hne hf.sufok hm hcfg
+
+/-- the parameters the group will compute with are exactly the ones written in the last suffix (any window size) -/
+theorem C16.params_read_back (c : Chain) (op : Op) (hc : c.wfU = true) (hop : op.ok = true) :
+    ∃ g, groupAt op.gid = some g ∧ extractParams g emptyOpts (Chain.step c op).render = .ok op.params := by
+  obtain ⟨g, hg, _, hf⟩ := sufFacts_of_ok op hop
+  exact ⟨g, hg, by rw [Chain.render_step]; exact hf.params _ (Chain.wfU_render c hc).1⟩
+
+/-! ## parse ∘ render = id, at any depth -/
+
+theorem mixin_single_count (op : Op) (g : Group) (hg : groupAt op.gid = some g) (har : op.arityOk 1 = true) (s : Str)
+    (hs : ∀ ch ∈ s, ch ≠ '&') : validateCount g (splitOn inputSep s).length = .ok () := by
+  have : splitOn inputSep s = [s] := splitOn_of_not_mem _ _ (by simpa [inputSep] using hs)
+  rw [this]
+  exact validateCount_of_arity g 1 (arityOk_elim hg har)
+
+theorem parse_render_unary (c : Chain) (h : c.wfU = true) : ∀ fuel, c.depth < fuel → parseAll fuel c.render = some c := by
+  induction c with
+  | src ns =>
+    intro fuel hf
+    match ns, h with
+    | [n], h =>
+      obtain ⟨_, h2, _, _⟩ := srcOk_elim (by simpa [Chain.wfU] using h)
+      cases fuel with
+      | zero => simp [Chain.depth] at hf
+      | succ f => simpa [parseAll, Chain.render, joinWith] using resolveFeat_leaf f n h2
+    | [], h => simp [Chain.wfU] at h
+    | _ :: _ :: _, h => simp [Chain.wfU] at h
+  | step c op ih =>
+    intro fuel hf
+    simp only [Chain.wfU, Bool.and_eq_true] at h
+    obtain ⟨⟨hc, hok⟩, har⟩ := h
+    obtain ⟨hne, hamp⟩ := Chain.wfU_render c hc
+    cases fuel with
+    | zero => simp [Chain.depth] at hf
+    | succ f =>
+      have hdf : c.depth < f := by simp [Chain.depth] at hf; omega
+      obtain ⟨g, hg, hstep⟩ := resolveStep_rendered op hok c.render hne
+        (fun g' hg' _ => mixin_single_count op g' hg' har c.render hamp)
+        (fun g' hg' hk => by
+          -- a two-input group cannot have arity 1
+          have hmod : modelled g' = true := by
+            obtain ⟨g'', hg'', hm'', _⟩ := sufFacts_of_ok op hok
+            rw [hg'] at hg''; cases hg''; exact hm''
+          rcases kinds (mem_modelledGroups (groupAt_mem hg') hmod) with ⟨hk', _⟩ | ⟨hk', _, _⟩ | ⟨_, hmin, _⟩
+          · rw [hk] at hk'; exact absurd hk' (by decide)
+          · rw [hk] at hk'; exact absurd hk' (by decide)
+          · have := arityOk_elim hg' har
+            simp [hmin] at this)
+      have hmain : (nameInputs g c.render).main = [mkFeat c.render] := by
+        have hmod : modelled g = true := by
+          obtain ⟨g'', hg'', hm'', _⟩ := sufFacts_of_ok op hok
+          rw [hg] at hg''; cases hg''; exact hm''
+        rcases kinds (mem_modelledGroups (groupAt_mem hg) hmod) with ⟨hk, _⟩ | ⟨hk, _, _⟩ | ⟨hk, hmin, _⟩
+        · have : splitOn inputSep c.render = [c.render] := splitOn_of_not_mem _ _ (by simpa [inputSep] using hamp)
+          simp [nameInputs, hk, this, dedupe_single]
+        · have hne1 : (twName == mixinName) = false := by decide
+          simp [nameInputs, hk, hne1]
+        · have := arityOk_elim hg har
+          simp [hmin] at this
+      have ih' := ih hc f hdf
+      simp only [parseAll] at ih' ⊢
+      rw [Chain.render_step]
+      simp only [resolveFeat, featName_mkFeat, featOpts_mkFeat, hstep, hmain, ih', Option.map_some]
+
+/-- **parse_render.** Resolving the rendered name of any well-formed chain - a unary spine of any depth, or one
+multi-input operation over its `&`-joined sources - returns exactly that chain: the groups in order, their parameters
+and the source names.  (`fuel` only has to exceed the depth.) -/
+theorem C16.parse_render (c : Chain) (h : c.wf = true) (fuel : Nat) (hf : c.depth < fuel) : parseAll fuel c.render = some c := by
+  match c, h with
+  | .src ns, h => exact parse_render_unary (.src ns) (by simpa [Chain.wf] using h) fuel hf
+  | .step (.step c' op') op, h => exact parse_render_unary _ (by simpa [Chain.wf] using h) fuel hf
+  | .step (.src ns) op, h =>
+    simp only [Chain.wf] at h
+    by_cases h2 : 2 ≤ ns.length
+    · simp only [h2, if_true, Bool.and_eq_true, List.all_eq_true] at h
+      obtain ⟨⟨⟨hsrc, hdist⟩, hok⟩, har⟩ := h
+      have hnamp : ∀ n ∈ ns, ∀ d ∈ n, d ≠ inputSep := fun n hn => by simpa [inputSep] using (srcOk_elim (hsrc n hn)).2.2.1
+      have hnne : ns ≠ [] := by intro hn; subst hn; simp at h2
+      have hsplit : splitOn inputSep (joinWith inputSep ns) = ns := splitOn_joinWith inputSep ns hnne hnamp
+      have hrne : joinWith inputSep ns ≠ [] := by
+        obtain ⟨a, r, rfl⟩ := List.exists_cons_of_ne_nil hnne
+        exact joinWith_ne_nil inputSep _ ⟨a, by simp, (srcOk_elim (hsrc a (by simp))).1⟩ (fun n hn => (srcOk_elim (hsrc n hn)).1)
+      cases fuel with
+      | zero => simp at hf
+      | succ f =>
+        cases f with
+        | zero => simp [Chain.depth] at hf
+        | succ f' =>
+          obtain ⟨g0, hg0, hmod0, _⟩ := sufFacts_of_ok op hok
+          obtain ⟨g, hg, hstep⟩ := resolveStep_rendered op hok (joinWith inputSep ns) hrne
+            (fun g' hg' _ => by rw [hsplit]; exact validateCount_of_arity g' _ (arityOk_elim hg' har))
+            (fun g' hg' hk => by
+              have hmod : modelled g' = true := by rw [hg'] at hg0; cases hg0; exact hmod0
+              rcases kinds (mem_modelledGroups (groupAt_mem hg') hmod) with ⟨hk', _⟩ | ⟨hk', _, _⟩ | ⟨_, hmin, hmax⟩
+              · rw [hk] at hk'; exact absurd hk' (by decide)
+              · rw [hk] at hk'; exact absurd hk' (by decide)
+              · have := arityOk_elim hg' har
+                simp only [hmin, hmax, Bool.and_eq_true, decide_eq_true_eq] at this
+                have hlen : ns.length = 2 := by omega
+                match ns, hlen with
+                | [a, b], _ =>
+                  have ha : ∀ d ∈ a, d ≠ '&' := by simpa [inputSep] using hnamp a (by simp)
+                  simp [joinWith, inputSep, splitOnce_append '&' a b ha])
+          have hmod : modelled g = true := by rw [hg] at hg0; cases hg0; exact hmod0
+          have hmain : (nameInputs g (joinWith inputSep ns)).main = ns.map mkFeat := by
+            rcases kinds (mem_modelledGroups (groupAt_mem hg) hmod) with ⟨hk, _⟩ | ⟨hk, _, hmax⟩ | ⟨hk, hmin, hmax⟩
+            · simp [nameInputs, hk, hsplit, dedupe_mkFeat ns hdist]
+            · have := arityOk_elim hg har
+              simp only [hmax, Bool.and_eq_true, decide_eq_true_eq] at this
+              omega
+            · have := arityOk_elim hg har
+              simp only [hmin, hmax, Bool.and_eq_true, decide_eq_true_eq] at this
+              have hlen : ns.length = 2 := by omega
+              match ns, hlen, hdist with
+              | [a, b], _, hd =>
+                have ha : ∀ d ∈ a, d ≠ '&' := by simpa [inputSep] using hnamp a (by simp)
+                have hne1 : (geoName == mixinName) = false := by decide
+                have hne2 : (geoName == twName) = false := by decide
+                have := dedupe_mkFeat [a, b] hd
+                simp only [List.map] at this
+                simp [nameInputs, hk, hne1, hne2, joinWith, inputSep, splitOnce_append '&' a b ha, this]
+          have hleaf : (ns.map mkFeat).all isLeaf = true := by
+            simp only [List.all_eq_true, List.mem_map]
+            rintro _ ⟨n, hn, rfl⟩
+            exact isLeaf_mkFeat n (srcOk_elim (hsrc n hn)).2.1
+          have hnames : (ns.map mkFeat).mapM featName? = some ns := by
+            clear hsplit hstep hmain hleaf hrne hnamp hsrc hdist har h2 hnne hf
+            induction ns with
+            | nil => rfl
+            | cons a r ih => simp [List.mapM_cons, featName_mkFeat, ih]
+          simp only [parseAll, Chain.render, resolveFeat, featName_mkFeat, featOpts_mkFeat, hstep, hmain]
+          match ns, h2, hleaf, hnames with
+          | a :: b :: r, _, hleaf, hnames =>
+            simp only [List.map_cons] at hleaf hnames ⊢
+            simp only [hleaf, hnames, if_true, Option.map_some]
+    · simp only [h2, if_false] at h
+      exact parse_render_unary _ h fuel hf
+
+/-! ## malformed names are rejected -/
+
+/-- **malformed_rejected (no source).** A name that is just `__<suffix>` of a vocabulary operation matches that group's
+pattern but has no source: `parse_feature_name` raises, for every operation and every window size -/
+theorem C16.no_source_rejected (op : Op) (hop : op.ok = true) :
+    ∃ g, groupAt op.gid = some g ∧ parseFeatureName chainSep [g.toks] (chainSep ++ op.suffix) = .error (.value "no-source") := by
+  obtain ⟨g, hg, _, hf⟩ := sufFacts_of_ok op hop
+  obtain ⟨caps, hm, _⟩ := hf.matched
+  exact ⟨g, hg, parseFeatureName_no_source g.toks op.suffix caps hf.sufok hm⟩
+
+/-- … and consequently no modelled group claims such a name: `match_feature_group_criteria` of its own group swallows the
+`ValueError` and answers False -/
+theorem C16.no_source_unclaimed (op : Op) (hop : op.ok = true) (o : Opts) :
+    ∃ g, groupAt op.gid = some g ∧ matchCriteria g (chainSep ++ op.suffix) o = .ok false := by
+  obtain ⟨g, hg, hmod, hf⟩ := sufFacts_of_ok op hop
+  obtain ⟨caps, hm, _⟩ := hf.matched
+  refine ⟨g, hg, ?_⟩
+  unfold matchCriteria matchConfiguration
+  rw [parseFeatureName_no_source g.toks op.suffix caps hf.sufok hm]
+  simp [hmod]
+
+/-- **malformed_rejected (in-feature count).** For a group with the default `input_features`, a name whose source part
+splits on `&` into fewer than MIN or more than MAX inputs is rejected - whatever the options say -/
+theorem C16.count_violation_rejected (op : Op) (hop : op.ok = true) (g : Group) (hg : groupAt op.gid = some g)
+    (hk : g.inputImpl = mixinName) (s : Str) (hs : s ≠ []) (o : Opts)
+    (hbad : (splitOn inputSep s).length < g.minIn ∨ ∃ m, g.maxIn = some m ∧ m < (splitOn inputSep s).length) :
+    ∃ e, inputFeatures g o (s ++ chainSep ++ op.suffix) = .error (.value e) := by
+  obtain ⟨g', hg', hmod, hf⟩ := sufFacts_of_ok op hop
+  rw [hg] at hg'; cases hg'
+  obtain ⟨caps, hm, hcfg⟩ := hf.matched
+  obtain ⟨cfg, hcfg'⟩ := Option.isSome_iff_exists.mp hcfg
+  have hp := parseFeatureName_append g.toks s op.suffix caps hs hf.sufok hm
+  rw [hcfg'] at hp
+  have hse : s.isEmpty = false := by cases s <;> simp_all
+  rcases kinds (mem_modelledGroups (groupAt_mem hg) hmod) with ⟨_, hsep⟩ | ⟨hk', _, _⟩ | ⟨hk', _, _⟩
+  · unfold inputFeatures inputFeaturesMixin
+    simp only [hk, beq_self_eq_true, if_true, hsep]
+    rw [hp]
+    simp only [bind, Except.bind, pure, Except.pure, hse, Bool.not_false, if_true]
+    unfold validateCount
+    rcases hbad with hlt | ⟨m, hm', hgt⟩
+    · exact ⟨"too-few-in-features", by simp [hlt]⟩
+    · by_cases hlt : (splitOn inputSep s).length < g.minIn
+      · exact ⟨"too-few-in-features", by simp [hlt]⟩
+      · exact ⟨"too-many-in-features", by simp [hlt, hm', hgt]⟩
+  · rw [hk] at hk'; exact absurd hk' (by decide)
+  · rw [hk] at hk'; exact absurd hk' (by decide)
+
+/-! ## `~` : sub-columns -/
+
+theorem columnSep_eq : columnSep = '~' := by decide
+
+/-- the loader's `name~index` is undone by `get_column_base_feature` for every `~`-free name (so also for every rendered
+chain name) and every index -/
+theorem C16.column_base_roundtrip (name idx : Str) (h : ∀ c ∈ name, c ≠ '~') : columnBase (withColumnIndex name idx) = name := by
+  unfold columnBase withColumnIndex
+  rw [splitOn_append columnSep name idx (by simpa [columnSep_eq] using h)]
+  rfl
+
+/-- FULL STATEMENT (false): "`base~i__suffix` names the operation applied to sub-column `i` of `base`".
+`FeatureGroup.match_feature_group_criteria` takes `get_column_base_feature(name)` = everything before the FIRST `~`, i.e.
+it also drops the chain suffix: -/
+theorem C16.tilde_base_swallows_suffix_witness :
+    columnBase "m~1__sum_aggr".toList = "m".toList ∧
+    parseAll 5 "m~1__sum_aggr".toList = some (.step (.src ["m~1".toList]) ⟨0, [.s "sum".toList]⟩) := by decide
+
+/-! ## known grammar defects (negation witnesses, replayed on the real code by the harness) -/
+
+/-- FULL STATEMENT (false): "`parse_render` for every spine, also when the first operation takes several inputs".
+A multi-input operation followed by another suffix cannot be read back: the later group splits its whole source on `&`. -/
+theorem C16.amp_then_suffix_witness :
+    parseAll 9 "p&q__euclidean_distance__sum_aggr".toList = none ∧
+    parseAll 9 "p&q__euclidean_distance".toList = some (.step (.src ["p".toList, "q".toList]) ⟨5, [.s "euclidean".toList]⟩) ∧
+    (match inputFeatures gAggregatedFeatureGroup emptyOpts "p&q__euclidean_distance__sum_aggr".toList with
+      | .error (.value t) => t == "too-many-in-features"
+      | _ => false) = true := by decide
+
+/-- a third `&` input is not rejected by the geo-distance group at planning time: it is read as the inputs `pa` and `pb&pc` -/
+theorem C16.geo_three_inputs_witness :
+    (inputFeatures gGeoDistanceFeatureGroup emptyOpts "pa&pb&pc__euclidean_distance".toList).toOption.map
+        (fun i => i.main.map featName?) = some [some "pa".toList, some "pb&pc".toList] := by decide
+
+/-- patterns that end in `([\w]+)$` also match names that continue with further suffixes (`\w` contains `_`) -/
+theorem C16.word_terminated_pattern_swallows_witness :
+    (matchPattern gForecastingFeatureGroup.toks "x__linear_forecast_7day__sum_aggr".toList).isSome = true ∧
+    (matchPattern gAggregatedFeatureGroup.toks "x__linear_forecast_7day__sum_aggr".toList).isSome = true ∧
+    (matchPattern gSklearnPipelineFeatureGroup.toks "x__sklearn_pipeline_a__sum_aggr".toList).isSome = true := by decide
+
+/-! ## non-vacuity -/
+
+/-- a depth-3 chain with an arbitrary window size meets `wf`, renders to the expected name and is read back -/
+example :
+    let c : Chain := .step (.step (.step (.src ["x_1".toList]) ⟨6, [.s "mean".toList]⟩) ⟨11, [.s "sum".toList, .n 365, .s "day".toList]⟩)
+      ⟨0, [.s "max".toList]⟩
+    c.wf = true ∧ c.render = "x_1__mean_imputed__sum_365_day_window__max_aggr".toList ∧ parseAll 4 c.render = some c := by decide
+
+example :
+    let c : Chain := .step (.src ["pa".toList, "pb".toList]) ⟨5, [.s "haversine".toList]⟩
+    c.wf = true ∧ c.render = "pa&pb__haversine_distance".toList ∧ parseAll 2 c.render = some c := by decide
+
+/-- the first suffix is *not* the one applied last: reversing the suffix order gives a different chain -/
+example : parseAll 4 "x__sum_aggr__mean_imputed".toList ≠ parseAll 4 "x__mean_imputed__sum_aggr".toList := by decide
